@@ -3,6 +3,8 @@ import ComposeVerif.Lemmas.ExtendsFuel
 import ComposeVerif.Lemmas.ExtendsComplete
 import ComposeVerif.Neg.C05
 import ComposeVerif.Model.ExtendsMerge
+import ComposeVerif.Lemmas.ExtendsReal
+import ComposeVerif.Gen.C05Facts
 /-!
 # C05 — extends yields base-then-local override, order-independent, cycle-safe
 
@@ -368,6 +370,189 @@ theorem applyExtends_perm_real (mainFile : String) (fs : FS) {order₁ order₂ 
       lookup "services" out₁ = some (.map R₁) ∧ lookup "services" out₂ = some (.map R₂) ∧
       ∀ n, lookup n R₁ = lookup n R₂ :=
   applyExtends_perm hS hnn hfs hmain h₁ h₂ r₁
+
+/-- **the real merge step never panics** (C04's `extendService_never_panics`, since the round-2 repairs of the
+special mergers), so the environment of a real load is panic-free as soon as loading the extended files is -/
+theorem realEnv_panicFree (mainFile : String) (fs : FS) (hfs : ∀ f s, ¬ fsPanics fs f s) :
+    PanicFree (realEnv mainFile fs) :=
+  ⟨fun b svc s => mergeExtend_never_panics b svc s, hfs⟩
+
+/-- with the real merge step `ApplyExtends` returns a result or an error, for every document and visit order,
+provided loading the extended files does not panic -/
+theorem applyExtends_ok_or_err_real (mainFile : String) (fs : FS) (hfs : ∀ f s, ¬ fsPanics fs f s)
+    {order : List String} {dict : KVs}
+    (hord : ∀ S, lookup "services" dict = some (.map S) → Visits order S) :
+    (∃ out, applyExtendsOrd (realEnv mainFile fs) order dict = .ok out) ∨
+      ∃ c, applyExtendsOrd (realEnv mainFile fs) order dict = .err c :=
+  applyExtends_ok_or_err (realEnv_panicFree mainFile fs hfs) hord
+
+/-- cyclic chain ⇒ error, with the real merge step -/
+theorem cycle_is_error_real (mainFile : String) (fs : FS) (hfs : ∀ f s, ¬ fsPanics fs f s)
+    {order : List String} {dict S : KVs} {n : String}
+    (hS : lookup "services" dict = some (.map S)) (hnn : NoNull S) (hnfs : NoNullFS (realEnv mainFile fs))
+    (hord : Visits order S) (hn : lookup n S ≠ none) (hc : Cyclic (realEnv mainFile fs) (S, n)) :
+    ∃ c, applyExtendsOrd (realEnv mainFile fs) order dict = .err c :=
+  cycle_is_error (realEnv_panicFree mainFile fs hfs) hS hnn hnfs hord hn hc
+
+/-- **the executable flatten specification is the `Flat` relation**: `flattenF` (what the driver computes for the
+spec oracle: no tracker, no memoisation, no visit order) succeeds with `v` for some chain-length bound iff `Flat` -/
+theorem flattenF_iff_flat (E : Env) (S : KVs) (n : String) (v : Val) :
+    (∃ fuel, flattenF E fuel S n = .ok v) ↔ Flat E S n v :=
+  ⟨fun ⟨fuel, h⟩ => flattenF_sound E fuel S n v h, flattenF_complete E⟩
+
+/-- whenever `ApplyExtends` succeeds, every service is what `flattenF` computes (the statement the spec oracle
+decides on the real code) -/
+theorem extends_eq_flattenF {E : Env} {order : List String} {dict out S : KVs}
+    (hS : lookup "services" dict = some (.map S)) (hnn : NoNull S) (hfs : NoNullFS E)
+    (hord : Visits order S) (h : applyExtendsOrd E order dict = .ok out) :
+    ∃ R, lookup "services" out = some (.map R) ∧
+      ∀ n, lookup n S ≠ none → ∃ v fuel, lookup n R = some v ∧ flattenF E fuel S n = .ok v := by
+  obtain ⟨R, hR, hall⟩ := extends_eq_flatten hS hnn hfs hord h
+  refine ⟨R, hR, fun n hn => ?_⟩
+  obtain ⟨v, hv, hf⟩ := (hall n).2 hn
+  obtain ⟨fuel, hfu⟩ := flattenF_complete E hf
+  exact ⟨v, fuel, hv, hfu⟩
+
+/-- **the source is the code that was modelled.**  The decision-relevant statements of `ApplyExtends`,
+`applyServiceExtends`, `getExtendsBaseFromFile`, `deepClone` (loader/extends.go) and `cycleTracker.Add`
+(loader/loader.go), regenerated from the tree on every run (`Gen/C05Facts.lean`, translator/c05.go), are the ones
+`Model/Extends.lean` was written against: the order of the checks, the tracker call on `(filename, name)` after the
+base was located and before the recursion, the context switched to the referenced file, the deep clone of the base
+before `override.ExtendService(source, service)`, `delete(merged, "extends")`, the memo `services[name] = merged`,
+the options of the nested load and `ResolveRelativePaths(source, relworkingdir, …)` after the three checks, the
+fresh branch of the tracker. -/
+theorem extends_source_is_modelled :
+    CV.Gen.c05_ApplyExtends = [
+  "if !ok",
+  "return nil",
+  "if !ok",
+  "return <error>",
+  "errorf services must be a mapping",
+  "range services",
+  "merged := applyServiceExtends(…)",
+  "applyServiceExtends(ctx, name, services, opts, tracker, post)",
+  "if err != nil",
+  "return err",
+  "services[name] = merged",
+  "dict[\"services\"] = services",
+  "return nil"] ∧
+    CV.Gen.c05_applyServiceExtends = [
+  "if s == nil",
+  "return nil, nil",
+  "if !ok",
+  "return nil, <error>",
+  "errorf services.%s must be a mapping",
+  "if !ok",
+  "return s, nil",
+  "filename := ctx.Value(consts.ComposeFileKey{}).(string)",
+  "typeswitch v := extends.(type)",
+  "case map[string]any",
+  "ref = v[\"service\"].(string)",
+  "if !ok",
+  "return nil, <error>",
+  "errorf services.%s.extends.service must be a string",
+  "file = v[\"file\"]",
+  "case string",
+  "ref = v",
+  "if file != nil",
+  "if !ok",
+  "return nil, <error>",
+  "errorf services.%s.extends.file must be a string",
+  "getExtendsBaseFromFile(ctx, name, ref, filename, refFilename, opts, tracker)",
+  "post = append(post, processor)",
+  "if err != nil",
+  "return nil, err",
+  "ctx = context.WithValue(…)",
+  "context.WithValue(ctx, consts.ComposeFileKey{}, refFilename)",
+  "if !ok",
+  "return nil, <error>",
+  "errorf cannot extend service %q in %s: service %q not found",
+  "tracker = tracker.Add(…)",
+  "tracker.Add(filename, name)",
+  "if err != nil",
+  "return nil, err",
+  "base = applyServiceExtends(…)",
+  "applyServiceExtends(ctx, ref, services, opts, tracker, post)",
+  "if err != nil",
+  "return nil, err",
+  "if base == nil",
+  "return service, nil",
+  "source := deepClone(base).(map[string]any)",
+  "deepClone(base)",
+  "range post",
+  "processor.Apply(map[string]any{\n\t\"services\": map[string]any{\n\t\tname: source,\n\t},\n})",
+  "merged := override.ExtendService(…)",
+  "override.ExtendService(source, service)",
+  "if err != nil",
+  "return nil, err",
+  "delete(merged, \"extends\")",
+  "services[name] = merged",
+  "return merged, nil"] ∧
+    CV.Gen.c05_getExtendsBaseFromFile = [
+  "range opts.ResourceLoaders",
+  "if !loader.Accept(refPath)",
+  "loader.Accept(refPath)",
+  "loader.Load(ctx, refPath)",
+  "if err != nil",
+  "return nil, nil, err",
+  "filepath.Dir(local)",
+  "loader.Dir(refPath)",
+  "opts.clone()",
+  "extendsOpts.ResourceLoaders = append(opts.RemoteResourceLoaders(), localResourceLoader{\n\tWorkingDir: localdir,\n})",
+  "opts.RemoteResourceLoaders()",
+  "extendsOpts.ResolvePaths = false",
+  "extendsOpts.SkipNormalization = true",
+  "extendsOpts.SkipConsistencyCheck = true",
+  "extendsOpts.SkipInclude = true",
+  "extendsOpts.SkipExtends = true",
+  "extendsOpts.SkipValidation = true",
+  "extendsOpts.SkipDefaultValues = true",
+  "source := loadYamlFile(…)",
+  "loadYamlFile(ctx, types.ConfigFile{Filename: local}, extendsOpts, relworkingdir, nil, ct, map[string]any{}, nil)",
+  "if err != nil",
+  "return nil, nil, err",
+  "if !ok",
+  "return nil, nil, <error>",
+  "errorf cannot extend service %q in %s: no services section",
+  "if !ok",
+  "return nil, nil, <error>",
+  "errorf cannot extend service %q in %s: services must be a mapping",
+  "if !ok",
+  "return nil, nil, <error>",
+  "errorf cannot extend service %q in %s: service %q not found in %s",
+  "range opts.RemoteResourceLoaders()",
+  "opts.RemoteResourceLoaders()",
+  "paths.ResolveRelativePaths(source, relworkingdir, remotes)",
+  "if err != nil",
+  "return nil, nil, err",
+  "return services, processor, nil",
+  "return nil, nil, <error>",
+  "errorf cannot read %s"] ∧
+    CV.Gen.c05_deepClone = [
+  "typeswitch v := value.(type)",
+  "case []any",
+  "range v",
+  "cp[i] = deepClone(…)",
+  "deepClone(e)",
+  "return cp",
+  "case map[string]any",
+  "range v",
+  "cp[k] = deepClone(…)",
+  "deepClone(e)",
+  "return cp",
+  "default",
+  "return value"] ∧
+    CV.Gen.c05_trackerAdd = [
+  "toAdd := serviceRef{filename: filename, service: service}",
+  "range ct.loaded",
+  "if toAdd == loaded",
+  "range append(ct.loaded[1:], toAdd)",
+  "return nil, <error>",
+  "errors.New(strings.Join(errLines, \"\\n\"))",
+  "branch = append(branch, ct.loaded...)",
+  "branch = append(branch, toAdd)",
+  "return &cycleTracker{\n\tloaded: branch,\n}, nil"] :=
+  ⟨rfl, rfl, rfl, rfl, rfl⟩
 
 /-! ## non-vacuity: the hypotheses of the theorems above are satisfiable by a non-trivial input
 (the two-file model of `Neg/C05.lean`, visited in the order that succeeds) -/
